@@ -60,6 +60,9 @@ def sdel [BEq α] (a : α) (l : List α) : List α := l.filter (fun b => !(b == 
 
 def isDigitCp (c : Nat) : Bool := 48 ≤ c && c ≤ 57
 
+/-- ASCII `str.lower()` of one code point -/
+def lowerCp (c : Nat) : Nat := if 65 ≤ c && c ≤ 90 then c + 32 else c
+
 /-- `helpers.is_ip_address` (hosts are ASCII: `yarl` `raw_host`) -/
 def isIp (host : Str) : Bool :=
   if host.isEmpty then false
@@ -319,7 +322,8 @@ def Saved.raw (s : Saved) : Raw :=
 /-- `_load_json_data(data)` -/
 def load (allowIp : Bool) (now : Int) (data : List Saved) : Jar :=
   let j := data.foldl (fun (j : Jar) (s : Saved) =>
-    let host : Option Str := if s.dom.isEmpty then none else some s.dom
+    -- `URL.build(scheme="https", host=domain).raw_host`: yarl lower-cases the host
+    let host : Option Str := if s.dom.isEmpty then none else some (s.dom.map lowerCp)
     let rpath : Str := if s.dom.isEmpty then [] else [47]
     let j := update allowIp now host rpath j [s.raw]
     match s.exp with
